@@ -447,20 +447,13 @@ class Builder:
         else:
             special = []
             if kind == "paged":
-                special = [{"name": "page_size", "number": 101, "type": self.d(st.sampled_from(["int32", "int32", "int64"]))},
-                           {"name": "page_token", "number": 102, "type": "string"}]
+                special = self.paged_request_fields()
             req = self.request_message(file, pkg, names, fileidx, f"{name}Request", special)
             meth["input"] = f".{req.pop('_pkg')}.{req['name']}"
         # response
         if kind == "paged":
-            item = self.d(st.sampled_from(["message", "message", "string", "int32", "enum"]))
-            f = {"name": "items", "number": 1, "type": item, "repeated": True}
-            if item in ("message", "enum"):
-                f["type_name"] = self.type_ref(fileidx, item)
             resp = self.skeleton(pkg, names, self.p["max_depth"], fileidx, base=f"{name}Response")
-            resp["fields"] = [f, {"name": "next_page_token", "number": 2, "type": "string"}]
-            if self.d(st.booleans()):
-                resp["fields"].append({"name": "total_size", "number": 3, "type": "int32"})
+            resp["fields"] = self.paged_response_fields(fileidx)
             file["messages"].append(resp)
             meth["output"] = f".{pkg}.{resp['name']}"
         elif kind == "lro":
@@ -543,6 +536,60 @@ class Builder:
         if c:
             meth["comment"] = c
         return meth
+
+    # -- pagination shapes (AIP-4233 ingredients, present / absent / mistyped) ----
+    def paged_request_fields(self):
+        v = self.p.get("paged_variants", False)
+        pick = lambda opts: self.d(st.sampled_from(opts))
+        tok = pick(["string"] * 8 + (["int32", "rep-string", None] if v else []))
+        size = pick(["int32"] * 5 + ["int64", "uint32"] + (["string", None, None] if v else []))
+        maxr = pick([None] * 8 + (["int32", "uint32", "Int32Value", "UInt32Value", "string"] if v else []))
+        out, num = [], 101
+        if size:
+            out.append({"name": "page_size", "number": num, "type": size}); num += 1
+        if tok:
+            f = {"name": "page_token", "number": num, "type": "string" if tok == "rep-string" else tok}
+            if tok == "rep-string":
+                f["repeated"] = True
+            out.append(f); num += 1
+        if maxr:
+            if maxr.endswith("Value"):
+                out.append({"name": "max_results", "number": num, "type": "message", "type_name": ".google.protobuf." + maxr})
+            else:
+                out.append({"name": "max_results", "number": num, "type": maxr})
+        return out
+
+    def paged_response_fields(self, fileidx):
+        v = self.p.get("paged_variants", False)
+        nrep = self.d(st.sampled_from([1, 1, 1, 2, 3] + ([0] if v else [])))
+        fields, num = [], 1
+        def rep():
+            nonlocal num
+            kind = self.d(st.sampled_from(["message", "message", "string", "int32", "enum", "map", "bytes"]))
+            f = {"name": ["items", "extras", "more"][len([x for x in fields if x.get("repeated") or x["type"] == "map"]) % 3], "number": num}
+            if kind == "map":
+                f.update({"type": "map", "map_key": self.d(st.sampled_from(["string", "int32"])),
+                          "map_value": self.d(st.sampled_from([{"type": "string"}, {"type": "int64"}, {"type": "message", "type_name": self.type_ref(fileidx, "message")}]))})
+            else:
+                f.update({"type": kind, "repeated": True})
+                if kind in ("message", "enum"):
+                    f["type_name"] = self.type_ref(fileidx, kind)
+            num += 1
+            return f
+        singles = [{"name": "total_size", "type": "int32"}, {"name": "unreachable_note", "type": "string"}]
+        for i in range(nrep):
+            if singles and self.d(st.booleans()):
+                sf = dict(singles.pop(0), number=num); num += 1
+                fields.append(sf)
+            fields.append(rep())
+        nt = self.d(st.sampled_from(["string"] * 8 + (["int32", None] if v else [])))
+        if nt:
+            pos = self.d(st.integers(0, len(fields))) if v else len(fields)
+            fields.insert(pos, {"name": "next_page_token", "number": num, "type": nt}); num += 1
+        for sf in singles:
+            if self.d(st.booleans()):
+                fields.append(dict(sf, number=num)); num += 1
+        return fields
 
     # -- whole API ---------------------------------------------------------
     def api(self):
